@@ -82,6 +82,9 @@ func balCases(tier string) []balCase {
 	for i := range directedGroups {
 		cs = append(cs, balCase{kind: "directed", strat: directedGroups[i].strat, subIdx: i, n: 40})
 	}
+	// sticky, generation conflicts: a member that missed a rebalance still claims (with an older
+	// generation) partitions another member owns now, under every subscription pattern of 3 members x 2 topics
+	cs = append(cs, balCase{kind: "conflict", strat: "sticky", m: 3, t: 2})
 	// sticky, one step from a settled plan: 3 members x 3 topics, every mixed
 	// subscription pattern, then every single change (one member's subscription,
 	// a fourth member joining with any subscription, any member leaving).
@@ -614,6 +617,8 @@ func (e *balanceEngine) Run(prop, tier string, seed int64, idx int) proto.Rec {
 		}
 	case "step":
 		e.step(r, c, rng)
+	case "conflict":
+		e.conflict(r)
 	case "directed":
 		g := directedGroups[c.subIdx]
 		for i := 0; i < c.n; i++ {
@@ -1056,6 +1061,64 @@ func (e *balanceEngine) chain(r *balRun, rng *rand.Rand) {
 		}
 		restrictToSubscribed(next)
 		in = next
+	}
+}
+
+// conflict: m0 (generation 5) claims every partition of the topics it subscribes to; m1 carries user
+// data of generation 4 claiming the first partitions of topic a and of topic bb (whether or not it still
+// subscribes to them); m2 has no user data or agrees with m0's generation and claims the rest of bb.
+func (e *balanceEngine) conflict(r *balRun) {
+	topicNames := []string{"a", "bb"}
+	subsOf := func(mask int) []string {
+		var ts []string
+		for k, t := range topicNames {
+			if mask&(1<<uint(k)) != 0 {
+				ts = append(ts, t)
+			}
+		}
+		return ts
+	}
+	for na := 2; na <= 6; na++ {
+		for nb := 1; nb <= 3; nb++ {
+			counts := map[string]int{"a": na, "bb": nb}
+			for si := 0; si < 27; si++ {
+				masks := []int{1 + si%3, 1 + (si/3)%3, 1 + (si/9)%3}
+				for staleClaims := 1; staleClaims <= 2; staleClaims++ {
+					for m2ud := 0; m2ud < 2; m2ud++ {
+						in := &balInput{strat: "sticky", members: map[string]sarama.ConsumerGroupMemberMetadata{}, topics: map[string][]int32{}, prior: "conflict+stale"}
+						used := map[string]bool{}
+						for i := 0; i < 3; i++ {
+							for _, t := range subsOf(masks[i]) {
+								used[t] = true
+							}
+						}
+						for t := range used {
+							in.topics[t] = seqParts(counts[t])
+						}
+						own := map[string][]int32{}
+						for _, t := range subsOf(masks[0]) {
+							own[t] = seqParts(counts[t])
+						}
+						stale := map[string][]int32{"a": seqParts(staleClaims)}
+						if staleClaims == 2 {
+							stale["bb"] = []int32{0}
+						}
+						in.members["m0"] = sarama.ConsumerGroupMemberMetadata{Topics: subsOf(masks[0]), UserData: encodeStickyUD(own, 1, 5)}
+						in.members["m1"] = sarama.ConsumerGroupMemberMetadata{Topics: subsOf(masks[1]), UserData: encodeStickyUD(stale, 1, 4)}
+						md := sarama.ConsumerGroupMemberMetadata{Topics: subsOf(masks[2])}
+						if m2ud == 1 {
+							md.UserData = encodeStickyUD(map[string][]int32{}, 1, 5)
+						}
+						in.members["m2"] = md
+						plan, ok := r.plan(in)
+						if !ok {
+							return
+						}
+						r.check(in, plan)
+					}
+				}
+			}
+		}
 	}
 }
 
